@@ -286,6 +286,7 @@ def run(pid, args, seed, work, t0):
     ctx.generated = gen_json
     literals = mined_literals()
     ctx.literals = literals
+    ctx.byte_literals = mined_byte_literals()
     ctx.gen = gen.Gen(seed, literals)
     broken = []            # broken obligations / lanes
     # ---- proof obligations
@@ -455,6 +456,22 @@ def mined_literals():
             if isinstance(node, ast.Constant) and isinstance(node.value, int) and not isinstance(node.value, bool):
                 if abs(node.value) < 2 ** 70:
                     out.add(node.value)
+    return sorted(out)
+
+
+def mined_byte_literals():
+    """bytes literals of the current pamqp source (prefixes / suffixes for buffer generators)"""
+    import ast
+    out = set()
+    repo = os.environ.get('PAMQP_REPO', '/repo')
+    for fn in ('frame.py', 'header.py', 'constants.py', 'heartbeat.py', 'body.py', 'decode.py', 'encode.py', 'base.py'):
+        try:
+            tree = ast.parse(open(os.path.join(repo, 'pamqp', fn), encoding='utf-8').read())
+        except Exception:  # noqa
+            continue
+        for node in ast.walk(tree):
+            if isinstance(node, ast.Constant) and isinstance(node.value, bytes) and 1 <= len(node.value) <= 8:
+                out.add(node.value)
     return sorted(out)
 
 
